@@ -847,4 +847,150 @@ theorem resumeAll_map (now ev : Nat) : ∀ (rs : List Rec) (s : State), s.count 
     rw [ih _ (by rw [hs.2.1, hs.2.2]; omega), hs.1]
     simp
 
+
+/-! ## The reporter picks an owing subscription up -/
+
+theorem removeLoop_perm' (p : Sub → Bool) : ∀ (fuel : Nat) (subs : List Sub) (count : Nat),
+    ∃ rem, (rem ++ (removeLoop p fuel subs count).1).Perm subs ∧ ∀ y ∈ rem, p y = true := by
+  intro fuel
+  induction fuel with
+  | zero => intro subs count; exact ⟨[], by simp [removeLoop], by simp⟩
+  | succ fuel ih =>
+    intro subs count
+    simp only [removeLoop]
+    cases hf : subs.findIdx? p with
+    | none => exact ⟨[], by simp, by simp⟩
+    | some i =>
+      simp only
+      have hi : i < subs.length := (List.findIdx?_eq_some_iff_findIdx_eq.mp hf).1
+      have hpi : p subs[i] = true := (List.findIdx?_eq_some_iff_getElem.mp hf).2.1
+      obtain ⟨rem, hr, hall⟩ := ih (swapRemove subs i) (count - 1)
+      refine ⟨subs[i] :: rem, ?_, ?_⟩
+      · have h1 := swapRemove_perm (es := subs) (i := i) (y := subs[i]) (by simp [hi])
+        exact (List.Perm.cons _ hr).trans h1
+      · intro y hy
+        rcases List.mem_cons.mp hy with rfl | hy
+        · exact hpi
+        · exact hall y hy
+
+/-- how a subscription can leave the table: the reporter begins a report for it (its context
+snapshots the current watermark), a removal matches it, or the device restarts -/
+theorem leaves_table {s : State} (op : Op) {x : Sub} (hx : x ∈ s.subs) (hn : x ∉ (s.step op).subs) :
+    (∃ now ev, op = .report now ev ∧ ∃ c ∈ (s.step op).ctxs, c.sub = x ∧ c.nextAttr = s.changed.watermark) ∨
+    (∃ pr, op = .remove pr ∧ pr x = true) ∨ (∃ now ev, op = .restart now ev) := by
+  cases op with
+  | change p => exact absurd hx hn
+  | add now fab peer mn mx ev =>
+    simp only [State.step, State.add] at hn
+    split at hn <;> exact absurd hx hn
+  | report now ev =>
+    left
+    refine ⟨now, ev, rfl, ?_⟩
+    simp only [State.step] at hn ⊢
+    rcases report_shape (s := s) (now := now) (ev := ev) with h1 | ⟨j, sub, hs, h1⟩
+    · rw [h1] at hn; exact absurd hx hn
+    · rw [h1] at hn ⊢
+      have hp := swapRemove_perm hs
+      rcases List.mem_cons.mp (hp.mem_iff.mpr hx) with rfl | hx'
+      · exact ⟨_, List.mem_append_right _ (List.mem_singleton.mpr rfl), rfl, rfl⟩
+      · exact absurd hx' hn
+  | fin id f =>
+    exfalso
+    simp only [State.step] at hn
+    cases hf : s.ctxs.find? (fun c => c.sub.id == id) with
+    | none => rw [fin_none hf] at hn; exact hn hx
+    | some c =>
+      rw [fin_eq hf] at hn
+      rcases (reportComplete_fields ({ s with ctxs := s.ctxs.eraseP (fun c => c.sub.id == id) })
+        (finSub s.hz c f) (finKeep f)).2.2.2.2.2 with h | h <;> rw [h] at hn
+      · exact hn hx
+      · exact hn (List.mem_append_left _ hx)
+  | remove p =>
+    right; left
+    refine ⟨p, rfl, ?_⟩
+    simp only [State.step] at hn
+    obtain ⟨cx, h1⟩ := remove_shape s p
+    rw [h1] at hn
+    obtain ⟨rem, hr, hall⟩ := removeLoop_perm' p (s.subs.length + 1) s.subs s.count
+    rcases List.mem_append.mp (hr.mem_iff.mpr hx) with h | h
+    · exact hall x h
+    · exact absurd h hn
+  | purge =>
+    exfalso
+    simp only [State.step, State.purge] at hn
+    repeat' split at hn
+    all_goals exact hn hx
+  | persist => exact absurd hx hn
+  | restart now ev => right; right; exact ⟨now, ev, rfl⟩
+
+theorem hz_step (s : State) (op : Op) : (s.step op).hz = s.hz := by
+  cases op with
+  | change p => rfl
+  | add now fab peer mn mx ev => simp only [State.step, State.add]; split <;> rfl
+  | report now ev =>
+    simp only [State.step]
+    rcases report_shape (s := s) (now := now) (ev := ev) with h1 | ⟨j, sub, _, h1⟩ <;> rw [h1] <;> rfl
+  | fin id f =>
+    simp only [State.step]
+    cases hf : s.ctxs.find? (fun c => c.sub.id == id) with
+    | none => rw [fin_none hf]
+    | some c => rw [fin_eq hf, (reportComplete_fields _ _ _).2.2.2.2.1]
+  | remove p =>
+    simp only [State.step]
+    obtain ⟨cx, h1⟩ := remove_shape s p
+    rw [h1]; rfl
+  | purge =>
+    simp only [State.step, State.purge]
+    repeat' split
+    all_goals rfl
+  | persist => rfl
+  | restart now ev =>
+    simp only [State.step]
+    rw [restart_eq]
+    have : ∀ (rs : List Rec) (t : State), (rs.foldl (fun st r => st.resumeOne r now ev) t).hz = t.hz := by
+      intro rs
+      induction rs with
+      | nil => intro t; rfl
+      | cons r rs ih =>
+        intro t; simp only [List.foldl_cons]; rw [ih]
+        unfold State.resumeOne; split <;> rfl
+    rw [this]; rfl
+
+theorem hz_stateAt (hz n : Nat) (sched : Nat → Op) : ∀ k, (stateAt hz n sched k).hz = hz := by
+  intro k
+  induction k with
+  | zero => rfl
+  | succ k ih => simp only [stateAt]; rw [hz_step, ih]
+
+
+theorem epoch_step (s : State) (op : Op) (h : ∀ now ev, op ≠ .restart now ev) :
+    (s.step op).epoch = s.epoch := by
+  cases op with
+  | change p => rfl
+  | add now fab peer mn mx ev => simp only [State.step, State.add]; split <;> rfl
+  | report now ev =>
+    simp only [State.step]
+    rcases report_shape (s := s) (now := now) (ev := ev) with h1 | ⟨j, sub, _, h1⟩ <;> rw [h1] <;> rfl
+  | fin id f =>
+    simp only [State.step]
+    cases hf : s.ctxs.find? (fun c => c.sub.id == id) with
+    | none => rw [fin_none hf]
+    | some c => rw [fin_eq hf, (reportComplete_fields _ _ _).2.1]
+  | remove p =>
+    simp only [State.step]
+    obtain ⟨cx, h1⟩ := remove_shape s p
+    rw [h1]; rfl
+  | purge =>
+    simp only [State.step, State.purge]
+    repeat' split
+    all_goals rfl
+  | persist => rfl
+  | restart now ev => exact absurd rfl (h now ev)
+
+/-- the reporter's passes complete: again and again, at later and later instants, a `report` call
+finds nothing reportable (this is how every pass of the reporter loop of `im.rs` ends) -/
+def Idle (hz n : Nat) (sched : Nat → Op) : Prop :=
+  ∀ k T, T < IMAX → ∃ k' now ev, k ≤ k' ∧ T ≤ now ∧ sched k' = .report now ev ∧
+    ((stateAt hz n sched k').report now ev).2 = none
+
 end Subs
